@@ -9,6 +9,7 @@ import (
 	"maps"
 	"math/rand/v2"
 	"os"
+	"regexp"
 	"slices"
 	"sort"
 	"sync"
@@ -335,8 +336,21 @@ func sequence(c *vk.C, rng *rand.Rand, k int) {
 				note(id, "returned-by-get")
 			}
 		case 3:
-			list, err := st.List(ctx, kind)
-			trace = append(trace, fmt.Sprintf("list err=%v n=%d", err != nil, len(list.Items)))
+			// plain and selector-filtered lists (filtered reads take their own code path in caches and wrappers); the selectors match
+			// everything or a subset - isolation must hold for whatever comes back
+			var lopts []state.ListOption
+
+			switch rng.IntN(4) {
+			case 1:
+				lopts = append(lopts, state.WithIDQuery(resource.IDRegexpMatch(regexp.MustCompile("."))))
+			case 2:
+				lopts = append(lopts, state.WithLabelQuery(resource.LabelExists("no-such-label", resource.NotMatches)))
+			case 3:
+				lopts = append(lopts, state.WithLabelQuery(resource.LabelExists("no-such-label", resource.NotMatches)), state.WithIDQuery(resource.IDRegexpMatch(regexp.MustCompile("^[a-z0-9]"))))
+			}
+
+			list, err := st.List(ctx, kind, lopts...)
+			trace = append(trace, fmt.Sprintf("list(%d selector options) err=%v n=%d", len(lopts), err != nil, len(list.Items)))
 
 			for _, it := range list.Items {
 				heldObjs = append(heldObjs, it)
